@@ -138,7 +138,7 @@ def run_dec(job, res, tier):
             res['wit_skipped'] = res.get('wit_skipped', 0) + 1
             continue
         if olen != l:
-            key = 'length:%s' % name
+            key = 'length:%s:%s|%s' % (name, ' '.join('%02x' % p_ for p_ in prefixes), ' '.join('%02x' % b_ for b_ in opc) + ('' if last is None else ' {%02x..}' % last[0]))
             if key not in seenk:
                 seenk.add(key)
                 res['candidates'].append({'key': key, 'desc': '%s: miasmX length %d (%s), objdump length %d (%s) for %s' % (title, l, txt.strip(), olen, otxt, bytes(w).hex()),
